@@ -32,3 +32,15 @@ def run_slice(case):
     v = SigmaString(case["s"])
     r = v[slice(case["start"], case["stop"])]
     return {"parts": enc_parts(r.s)}
+
+_bk = [0]
+def run_quoted(case):
+    from sigma.conversion.base import TextQueryBackend
+    from sigma.conversion.state import ConversionState
+    k = case["k"]
+    _bk[0] += 1
+    B = type(f"QB{_bk[0]}", (TextQueryBackend,), dict(
+        name="q", formats={"default": "x"}, requires_pipeline=False,
+        escape_char=k["esc"], wildcard_multi=k["multi"], wildcard_single=k["single"],
+        str_quote=case["q"], add_escaped=k["add"], filter_chars=k["filter"], str_quote_pattern=None))
+    return {"q": B().convert_value_str(SigmaString(case["s"]), ConversionState())}
